@@ -11,7 +11,14 @@ import sys
 sys.setrecursionlimit(20000)
 
 PID = "C14"
-ALLOWED_AXIOMS = []
+# 14 of the theorems mention a list builtin that renders an error payload (car cdr list-tail list-ref
+# list->vector reverse append ... through fail_cell -> Heap.get_as_cell -> Datum.display -> NumFmt.num_display):
+# since the number-formatting package landed, num_display (the shortest-round-trip float printer) is defined with
+# Flocq functions that carry the standard library's real-number axioms, so `Print Assumptions` reports them for
+# every statement that mentions such a builtin.  The proofs in Proofs/ListVecProofs.v add none (the other 29
+# theorems — vectors, pairs, equal?, predicates, identity — are Closed under the global context).
+ALLOWED_AXIOMS = ["ClassicalDedekindReals.sig_not_dec", "ClassicalDedekindReals.sig_forall_dec",
+                  "FunctionalExtensionality.functional_extensionality_dep", "Classical_Prop.classic"]
 PROFILES = ["debug"]
 KERNEL_SAMPLE = {"quick": 150, "thorough": 1500}
 KERNEL_MAXLEN = 400
@@ -43,7 +50,10 @@ MANIFEST = dict(
     design="DESIGN.md section 5 C14",
     note="Trusted: Coq kernel, the hand-written model (sampling correspondence), extraction+OCaml driver (kernel "
          "cross-check on a sub-sample), Rust harness (incl. its Scheme node-budget probe), Python reference store. "
-         "Axioms: none (every theorem Closed under the global context). OPEN (visible in Props/C14.v, not claimed): "
+         "Axioms: the proofs use none; 29 theorems are Closed under the global context, the 14 whose statement mentions a "
+         "builtin that renders an error payload (fail_cell -> Heap.get_as_cell -> Datum.display -> NumFmt.num_display) "
+         "inherit the standard-library real-number axioms (sig_not_dec, sig_forall_dec, functional_extensionality_dep, "
+         "classic) from the Flocq-based definition of num_display in the shared number-formatting model. OPEN (visible in Props/C14.v, not claimed): "
          "memq memv member assq assv assoc map for-each caar cdar cddr of Model/PreludeLists.v have no theorem; that "
          "file is a HAND model of prelude.scm:147-258 validated by the correspondence and the reference oracle only "
          "(list, length, cadr have theorems about the hand model, in a labelled section). equal_spec assumes "
